@@ -318,3 +318,127 @@ func TestVerifC06CacheAPI(t *testing.T) {
 		m.Count(k, v)
 	}
 }
+
+// TestVerifC06BulkDel: one write invalidates very many keys in a single Del call. Every
+// named key must be gone from redis afterwards (redis healthy: nothing may be left to a
+// retry), so that the next Take returns the database's current value. State-based oracle:
+// it does not care how the implementation batches the DEL commands.
+func TestVerifC06BulkDel(t *testing.T) {
+	m := vk.New(t, "C06", "bulk invalidation: Del of n keys in one call, n in {0,1,2,255,256,257,1023,1024,1025,2048,2049,2050,3000}, on a node, a cluster-type node (per-key deletes) and a 3-node weighted cluster, every key cached with an old value beforehand: afterwards no named key may still be in redis and Take of a sample of them (first, last, every boundary index) must return the reference's current value")
+	defer m.Done()
+	mrs, err := c06ApiEnv()
+	if err != nil {
+		m.Inconclusive("env: %v", err)
+		return
+	}
+	errNF := errors.New("c06 bulk: not found")
+	counts := []int{0, 1, 2, 255, 256, 257, 1023, 1024, 1025, 2048, 2049, 2050, 3000}
+	if vk.Thorough() {
+		counts = append(counts, 4095, 4096, 4097, 10000)
+	}
+	idx := 0
+	for _, world := range []string{"node", "clustertype", "cluster3"} {
+		for _, n := range counts {
+			idx++
+			if !m.Only(idx) {
+				continue
+			}
+			for _, mr := range mrs {
+				mr.FlushAll()
+			}
+			var c Cache
+			home := func(string) *miniredis.Miniredis { return mrs[0] }
+			switch world {
+			case "node":
+				c = NewNode(redis.New(mrs[0].Addr()), syncx.NewSingleFlight(), c06ApiStat, errNF)
+			case "clustertype":
+				c = NewNode(redis.New(mrs[0].Addr(), redis.WithCluster()), syncx.NewSingleFlight(), c06ApiStat, errNF)
+			default:
+				var conf Config
+				for i, mr := range mrs {
+					conf = append(conf, NodeConfig{Config: redis.Config{Host: mr.Addr(), Type: redis.NodeType}, Weight: []int{100, 40, 250}[i]})
+				}
+				c = New(conf, syncx.NewSingleFlight(), c06ApiStat, errNF)
+				cl, ok := c.(cluster)
+				if !ok {
+					m.Skip("cache.New with 3 nodes did not return a cluster")
+					continue
+				}
+				byAddr := map[string]*miniredis.Miniredis{}
+				for _, mr := range mrs {
+					byAddr[mr.Addr()] = mr
+				}
+				home = func(k string) *miniredis.Miniredis {
+					nd, ok := cl.dispatcher.Get(k)
+					if !ok {
+						return nil
+					}
+					return byAddr[nd.(node).rds.Addr]
+				}
+			}
+			desc := fmt.Sprintf("case=%d;%s", idx, vk.JSON(map[string]any{"world": world, "keys": n}))
+			m.Current(desc)
+			keys := make([]string, n)
+			perNode := map[*miniredis.Miniredis]int{}
+			for i := range keys {
+				keys[i] = fmt.Sprintf("c06b%d:k%05d", idx, i)
+				h := home(keys[i])
+				if h == nil {
+					m.Skip("cluster dispatcher returned no node")
+					continue
+				}
+				perNode[h]++
+				_ = h.Set(keys[i], `{"k":"old","v":1}`) // the entry cached before the write
+			}
+			// the write: the reference moves on, then every affected key is named in ONE call
+			cur := func(i int) c06Val { return c06Val{K: keys[i], V: 2} }
+			if err := c.Del(keys...); err != nil {
+				m.Count("del_errors", 1)
+			}
+			m.Count("keys_named", int64(n))
+			bad := false
+			for i, k := range keys {
+				if home(k).Exists(k) {
+					m.Violate("C06:coherence:named-key-not-deleted:"+world, desc, "Del named %d keys in one call; key #%d (%s) is still cached with the old value although redis is healthy (nothing was handed to a retry that could remove it later either: no DEL for it reached redis)", n, i, k)
+					bad = true
+					break
+				}
+			}
+			// reads of boundary keys after the completed write
+			var sample []int
+			for _, i := range []int{0, 1, 255, 256, 1023, 1024, 1025, 2047, 2048, 2049, n - 1} {
+				if i >= 0 && i < n {
+					sample = append(sample, i)
+				}
+			}
+			for _, i := range sample {
+				if bad {
+					break
+				}
+				var got c06Val
+				err := c.Take(&got, keys[i], func(v any) error {
+					*v.(*c06Val) = cur(i)
+					return nil
+				})
+				m.Count("reads_after_bulk_del", 1)
+				if err != nil || got != cur(i) {
+					m.Violate("C06:coherence:stale-read:api:Take:after-bulk-del", desc, "Take(%s) after the write naming %d keys returned %+v err=%v, reference has %+v", keys[i], n, got, err, cur(i))
+					bad = true
+				}
+			}
+			m.Max("max_keys_on_one_node", int64(func() int {
+				mx := 0
+				for _, v := range perNode {
+					if v > mx {
+						mx = v
+					}
+				}
+				return mx
+			}()))
+			m.Case(desc, n > 0)
+			if m.WantSample() && (n == 1025 || n == 3000) {
+				m.Sample(map[string]any{"world": world, "keys_named": n, "keys_left_in_redis": 0, "reads_checked": len(sample)})
+			}
+		}
+	}
+}
